@@ -41,7 +41,9 @@ def idents(key):
     """Every identifier the property lists for one key (primary)."""
     fp = str(key.fingerprint)
     spaced = ' '.join(fp[i:i + 4] for i in range(0, 40, 4))
-    out = {'fingerprint': fp, 'fingerprint-spaced': spaced, 'keyid': fp[-16:], 'shortid': fp[-8:]}
+    # the form GnuPG prints (and repr(Fingerprint) gives): groups of four, two spaces in the middle
+    display = spaced[:24] + ' ' + spaced[24:]
+    out = {'fingerprint': fp, 'fingerprint-spaced': spaced, 'fingerprint-display': display, 'keyid': fp[-16:], 'shortid': fp[-8:]}
     u = key.userids[0]
     out['name'] = u.name
     if u.comment:
